@@ -47,6 +47,8 @@ def ty_to_coq(t, names):
         return f'(TArr {ty_to_coq(t[1], names)})'
     if t[0] == 'stream':
         return f'(TStream {ty_to_coq(t[1], names)})'
+    if t[0] == 'interval':
+        return f'(TInterval {ty_to_coq(t[1], names)})'
     if t[0] == 'struct':
         return '(TStruct [' + '; '.join(f'({names.field(f)}, {ty_to_coq(ft, names)})' for f, ft in t[1]) + '])'
     if t[0] == 'tuple':
@@ -108,6 +110,10 @@ def fe_to_coq(p, names):
         return f'(EStrOf {r(p[1])})'
     if k == 'concat':
         return f'(EConcat {r(p[1])} {r(p[2])})'
+    if k == 'interval':
+        return f'(EInterval {r(p[1])} {r(p[2])})'
+    if k == 'coq':                       # a ready-made Gallina term (c36_tlang: field references, lookups)
+        return p[1]
     raise ValueError(p)
 
 
@@ -137,6 +143,8 @@ def coq_to_ty(v, names):
         return ['array', coq_to_ty(v[1], names)]
     if v[0] == 'TStream':
         return ['stream', coq_to_ty(v[1], names)]
+    if v[0] == 'TInterval':
+        return ['interval', coq_to_ty(v[1], names)]
     if v[0] == 'TStruct':
         return ['struct', [[names.field_back(f), coq_to_ty(t, names)] for f, t in v[1]]]
     if v[0] == 'TTuple':
@@ -184,6 +192,8 @@ def coq_to_ir(v, names):
         return [['StreamFold', ('m', v[1]), ('m', v[2])], [r(v[3]), r(v[4]), r(v[5])]]
     if k == 'GetTupleElement':
         return [['GetTupleElement', v[2]], [r(v[1])]]
+    if k == 'Coalesce':
+        return [['Coalesce'], [r(v[1]), r(v[2])]]
     raise ValueError(v)
 
 
@@ -487,6 +497,8 @@ def strict_ir_type(term, env=None):
             return ret if len(ts) == 2 and isinstance(ts[0], list) and ts[0][0] == 'array' and ts[1] == 'int32' and ts[0][1] == ret else None
         if f == 'FStr':
             return ret if len(ts) == 1 and ret == 'str' else None
+        if f == 'FInterval':
+            return ret if len(ts) == 4 and ts[0] == ts[1] and ts[2] == ts[3] == 'bool' and ret == ['interval', ts[0]] else None
         return None
     if k == 'BinOp':
         a, b = ty(cs[0]), ty(cs[1])
@@ -507,7 +519,12 @@ def strict_ir_type(term, env=None):
     if k == 'Let':
         a = ty(cs[0])
         return None if a is None else strict_ir_type(cs[1], {**env, h[1]: a})
+    if k == 'Coalesce':
+        ts = [ty(c) for c in cs]
+        return ts[0] if ts and None not in ts and all(t == ts[0] for t in ts) else None
     if k == 'Ref':
+        if h[2] is None:                 # a top-level reference (row / global / va / sa / g): typed by the node that binds it
+            return env.get(h[1])
         return h[2] if env.get(h[1]) == h[2] else None
     if k == 'MakeStruct':
         ts = [ty(c) for c in cs]
